@@ -111,7 +111,9 @@ func Root() string {
 		if FS.Root == nil {
 			Reset()
 		}
+		Quiet()
 		MkdirAll("/vfs", 0o755)
+		Loud()
 		return "/vfs"
 	}
 	d, err := os.MkdirTemp("", "vsymfs-")
@@ -340,7 +342,8 @@ func ReadFile(name string) ([]byte, error) {
 	if n.Perm&0o400 == 0 {
 		return nil, perr("open", name, syscall.EACCES)
 	}
-	return append([]byte{}, n.Data...), nil
+	// contents are never modified in place: the stored slice itself is returned (it may carry an abstract document)
+	return n.Data, nil
 }
 
 func (s *State) newFile(perm fs.FileMode) *Node {
@@ -458,7 +461,7 @@ func WriteFile(name string, data []byte, perm fs.FileMode) error {
 		return err
 	}
 	h := FS.handles[f]
-	h.node.Data = append([]byte{}, data...)
+	h.node.Data = data
 	h.closed = true
 	return nil
 }
@@ -642,7 +645,11 @@ func FileWrite(f *os.File, b []byte) (int, error) {
 	if !h.write {
 		return 0, perr("write", h.name, syscall.EBADF)
 	}
-	h.node.Data = append(h.node.Data, b...)
+	if h.node.Data == nil {
+		h.node.Data = b // keeps an abstract document attached to b
+	} else {
+		h.node.Data = append(h.node.Data, b...)
+	}
 	return len(b), nil
 }
 
